@@ -144,4 +144,10 @@ Progress == [][pc' = "loop" => x' + y' < x + y]_vars
 FastUnreachable == last # "fast"
 SlowPlusUnreachable == last # "slow+"
 NegSignUnreachable == ~(last = "fast" /\ (A < 0 \/ B < 0) /\ (C < 0 \/ D < 0))
+\* which condition sends an iteration to the multiprecision quotient (compared with the real loop by
+\* GcdStepTrace: field "why" of the slow events), and the return with both operands zero
+InLoop == pc = "loop" /\ LX # 0 /\ LY # 0 /\ ~Small
+SlowWideUnreachable == ~(InLoop /\ LX + G >= NW * WB)
+SlowTopSmallUnreachable == ~(InLoop /\ LX + G < NW * WB /\ LY + G < NW * WB /\ Top(S.y, LX) < P2(WB \div 2))
+BothZeroUnreachable == ~(pc = "loop" /\ LX = 0)
 =============================================================================
